@@ -271,6 +271,16 @@ def gen_argv(rng, tier, focus, lengths):
             argv += ['-em', str(rng.choice([0, 50, 100]))]
         if rng.random() < 0.3:
             argv += ['-eunit', rng.choice(['chain', 'molecule', 'all'])]
+    if '-elastic' not in argv and not ff.startswith('elnedyn') and focus not in ('C11',) and rng.random() < 0.10:
+        # Go model (generates a contact map from the atomistic structure) or the water bias on virtual sites
+        if rng.random() < 0.6:
+            argv.append('-go')
+            if rng.random() < 0.4:
+                argv += ['-go-write-file'] + (['contacts.out'] if rng.random() < 0.5 else [])
+            if rng.random() < 0.3:
+                argv += ['-go-eps', str(rng.choice([9.414, 12.0])), '-go-res-dist', str(rng.choice([2, 3]))]
+        else:
+            argv += ['-water-bias', '-water-bias-eps', 'H:3.6', 'C:2.1', '-ss', rng.choice('HCE')]
     if rng.random() < 0.25:
         argv.append('-noscfix')
     if rng.random() < 0.15:
@@ -278,7 +288,7 @@ def gen_argv(rng, tier, focus, lengths):
         if rng.random() < 0.5:
             argv += ['-pf', str(rng.choice([500, 1000.0]))]
     total = sum(lengths)
-    if focus != 'C17' and rng.random() < 0.15 and total:
+    if focus != 'C17' and '-ss' not in argv and rng.random() < 0.15 and total:
         letters = 'HHHHEEECCTSGB'
         if rng.random() < 0.7:
             ss = ''.join(rng.choice(letters) for _ in range(total))
@@ -382,6 +392,12 @@ def gen_task(rng, tier, focus):
                     peer['fault'] = [kind, rng.randrange(1 << 10)]
                 peer['fault_call'] = rng.choice([0, 0, 1])
             task['peer'] = peer
+    if focus in ('C07', 'C08') and rng.random() < 0.25:
+        # an entry in a molecule's log (what [ warning ]/[ error ] sections of a force field produce): logged by the CLI
+        # only when it writes output, i.e. after every pipeline stage
+        task['inject_model'] = [[rng.randint(6, 16), rng.choice([30, 30, 40]), rng.choice([1, 2])]]
+    if focus in ('C07', 'C08') and rng.random() < 0.2:
+        task['inject'] = task['inject'] + [[rng.randint(19, 30), rng.choice([30, 30, 40, 35]), rng.choice(['general', 'model']), 1]]
     if focus == 'C07' and rng.random() < 0.5:
         # finalisation-fault scenario: make sure the gate opens, then interrupt the CLI's finalisation
         r = rng.random()
